@@ -649,6 +649,12 @@ func runC09Concurrent(c *harness.Case, kind string) {
 		}
 		return harness.Pass
 	}
+	// the unknown answer is slow to classify (6 ms per errors.Is): the sequencer classifies it between taking the
+	// revision out of its slot, queueing it for repair and publishing it, so a compaction request can run in between
+	var slowIs int64
+	e.w.UncertainErr = func(b *harness.BatchInfo) error {
+		return &harness.SlowUncertain{Delay: 6 * time.Millisecond, Calls: &slowIs}
+	}
 	e.w.AfterCommit = func(b *harness.BatchInfo, ret error) {
 		e.after(b, ret)
 		if b.Tag == "late" {
@@ -856,6 +862,7 @@ func runC09Concurrent(c *harness.Case, kind string) {
 	c.Stat("concurrent_unknown_outcomes_injected", atomic.LoadInt64(&nInjected))
 	c.Stat("compactions_while_clients_ran", atomic.LoadInt64(&compactions))
 	c.Stat("compaction_answers_checked_against_unresolved_set", atomic.LoadInt64(&capChecks))
+	c.Stat("slow_classifications_of_unknown_answers", atomic.LoadInt64(&slowIs))
 	fp := ""
 	if atomic.LoadInt64(&nInjected) > 1 {
 		fp = fmt.Sprintf("conc/%d/%d", c.Index, len(events))
